@@ -42,7 +42,8 @@ typedef std::function<void(size_t, aiounicast *, CachinKursawePetzoldShoupRBC *,
 struct Deviation {
 	std::set<size_t> wrong, drop;     // unicast recipients
 	size_t pair_base = 0;             // index (per recipient) of the first message of the tampered pair
-	int answer = 0;                   // complaint answer: 0 correct, 1 incorrect (revealed share + 1), 2 none (silent from there on)
+	int answer = 0;                   // complaint answer: 0 correct, 1 incorrect (revealed share + 1), 2 none (silent from there on),
+	                                  // 3 ignored: the `who` of the answer is replaced by the end marker, the party goes on normally
 	int opening = 0;                  // opening of the own share: 0 correct, 1 mismatching (+1), 2 none (silent from there on)
 	bool bad_recon = false;           // the shares this party contributes to public reconstructions are broadcast as share + 1
 	bool active() const { return !wrong.empty() || !drop.empty() || answer || opening || bad_recon; }
@@ -88,7 +89,9 @@ public:
 inline TamperBroadcast *&tamper_broadcast() { static TamperBroadcast *p = 0; return p; }   // the wrapped broadcast channel of this (child) process
 
 inline ForkResult fork_parties(size_t n, size_t t, uint64_t seed, time_t aio_timeout, unsigned wall_limit_s, party_fn f,
-                               const std::map<size_t, Deviation> *devs = 0, mpz_srcptr q_dev = 0) {
+                               const std::map<size_t, Deviation> *devs = 0, mpz_srcptr q_dev = 0, time_t unicast_timeout = 0) {
+	// unicast_timeout: separate (shorter) time-out of the point-to-point channels, so that a party that waits in vain for a private
+	// message is not in turn timed out by the others on the broadcast channel
 	ForkResult R; R.text.assign(n, ""); R.status.assign(n, -1);
 	std::vector<std::vector<std::array<int, 2> > > up(n, std::vector<std::array<int, 2> >(n)), bp(n, std::vector<std::array<int, 2> >(n));
 	std::vector<std::array<int, 2> > rp(n);
@@ -121,11 +124,11 @@ inline ForkResult fork_parties(size_t n, size_t t, uint64_t seed, time_t aio_tim
 				aiounicast_select *aiou, *aiou2; CachinKursawePetzoldShoupRBC *rbc = 0;
 				static CachinKursawePetzoldShoupRBC *rbc_slot = 0;
 				if (devs && devs->count(w) && devs->at(w).active()) {
-					aiou = new TamperUnicast(devs->at(w), q_dev, n, w, uin, uout, ukey, aiounicast::aio_scheduler_roundrobin, aio_timeout);
+					aiou = new TamperUnicast(devs->at(w), q_dev, n, w, uin, uout, ukey, aiounicast::aio_scheduler_roundrobin, unicast_timeout ? unicast_timeout : aio_timeout);
 					TamperBroadcast *tb = new TamperBroadcast(&rbc_slot, n, w, bin, bout, bkey, aiounicast::aio_scheduler_roundrobin, aio_timeout);
 					tamper_broadcast() = tb; aiou2 = tb;
 				} else {
-					aiou = new aiounicast_select(n, w, uin, uout, ukey, aiounicast::aio_scheduler_roundrobin, aio_timeout);
+					aiou = new aiounicast_select(n, w, uin, uout, ukey, aiounicast::aio_scheduler_roundrobin, unicast_timeout ? unicast_timeout : aio_timeout);
 					aiou2 = new aiounicast_select(n, w, bin, bout, bkey, aiounicast::aio_scheduler_roundrobin, aio_timeout);
 				}
 				rbc = new CachinKursawePetzoldShoupRBC(n, t, w, aiou2, aiounicast::aio_scheduler_roundrobin, aio_timeout);
